@@ -228,6 +228,27 @@ engine_a("C39",
     level_text="Seeded search over relay negotiation/forwarding histories: a node emits a forwarded relay datagram only while am_relay is on, only for a packet that arrived on a relay index owned by a live tunnel, only toward a node other than itself and the source, and only if it had received both an authenticated CreateRelayRequest and the matching CreateRelayResponse for that pair; relay records never change type, local index or peer address, never return to PeerRequested, and every relay index points at a live tunnel that owns it. A strict state-transition relation is deliberately not enforced (the code legitimately moves between Requested/Established/Disestablished in most directions). Evidence, not proof.",
 )
 
+LH_RULE = "one run = lighthouse (node 0) plus 2-4 peers discovering each other through it, multi-homed peers advertising public/private IPv4 and IPv6 underlay addresses, optional remote allow lists (global and per overlay range, static for the run), calculated remotes, preferred ranges changed by reload, roaming between a node's addresses, transport faults and tunnel churn, and 20-100 crafted lighthouse messages from a byzantine certified peer (all six message types, v1/v2 encodings, claimed owner = itself / the receiver / a third peer / nobody, 1-14 addresses incl. overlay-range and denied ones, relays, missing details); distinct = distinct abstract trace hash; non-trivial = >5 crafted messages delivered, >50 datagram destinations judged and at least one candidate list with >=3 addresses compared"
+
+engine_a("C35",
+    scenarios=["C35.lh"],
+    technique="deterministic whole-overlay simulation with a byzantine certified peer sending every lighthouse message type through its real tunnels to the lighthouse and to ordinary nodes; lighthouse-cache snapshot, replies and punches compared around each message",
+    rule=LH_RULE,
+    level_text="Seeded search over discovery histories: at a lighthouse a message may change only the cache entries of the authenticated sender's own addresses and, within them, only the sender's own source slot, and never makes the lighthouse punch; at a non-lighthouse a message from a peer that is not one of its configured lighthouses changes nothing, schedules no punch toward any address it names and is never answered with a lighthouse message; a non-lighthouse never answers a query. Evidence, not proof.",
+)
+engine_a("C36",
+    scenarios=["C36.lh"],
+    technique="deterministic whole-overlay simulation with a wire-level invariant on every datagram every node emits (destination outside the node's overlay networks, allowed by an independent evaluation of its remote allow list for the intended peer, not a remote blocked for that pending handshake) plus cache bounds and static-host retention after every event",
+    rule=LH_RULE,
+    level_text="Seeded search over discovery/roaming histories: the intended peer of each datagram is recovered from the sender's own hostmap / pending handshakes / candidate lists; when several candidates match the datagram must be allowed for at least one (ambiguity can only lose detections); unattributable datagrams are counted, not judged; recv_error replies are outside the statement. After every event no source contributes more than ten addresses or relays per peer, no candidate lies in the node's overlay range, and a static host keeps its configured addresses. Allow lists are not reloaded during a run (the statement does not say whether an established tunnel's remote is re-validated). Evidence, not proof.",
+)
+engine_a("C37",
+    scenarios=["C37.lh"],
+    technique="deterministic whole-overlay simulation; after every event every remote list (lighthouse cache and tunnel candidate lists) is recomputed by a reference from the raw per-source cache and compared (set, order, relays)",
+    rule=LH_RULE,
+    level_text="History invariant: CopyAddrs(preferred ranges) must equal the deduplicated union of learned, reported and resolved addresses of all sources minus blocked ones, ordered preferred ranges first, then IPv6, public IPv4, private IPv4, each by address then port; relay candidates must equal the sorted deduplicated union of reported relays. The combinatorial space of lists is only sampled through these histories (claimed only as a by-product of the history simulation). Evidence, not proof.",
+)
+
 NOT_APPLICABLE = {
     "C03": "pure encode/decode round trip over input bytes; no clock, schedule, fault or second party for a simulator to control",
     "C04": "pure function of (certificate to sign, signer); offline CLI; nothing to schedule or fault",
